@@ -174,6 +174,8 @@ func NewSalsa20BlockCrypt(key []byte) (BlockCrypt, error) {
 //go:nosplit
 func (c *salsa20BlockCrypt) Encrypt(dst, src []byte) {
 	if len(src) < 8 {
+		// too short to carry a nonce: pass through unchanged, also into a separate dst
+		copy(dst, src)
 		return
 	}
 	salsa20.XORKeyStream(dst[8:], src[8:], src[:8], &c.key)
@@ -185,6 +187,8 @@ func (c *salsa20BlockCrypt) Encrypt(dst, src []byte) {
 //go:nosplit
 func (c *salsa20BlockCrypt) Decrypt(dst, src []byte) {
 	if len(src) < 8 {
+		// too short to carry a nonce: pass through unchanged, also into a separate dst
+		copy(dst, src)
 		return
 	}
 	salsa20.XORKeyStream(dst[8:], src[8:], src[:8], &c.key)
